@@ -1,0 +1,50 @@
+//! Verification hooks (feature `verif_hooks`, off by default).
+//!
+//! Thin, add-only re-exports of crate-private kernels so that an external
+//! harness can exercise them directly. Nothing here changes behaviour.
+
+use core::num::NonZeroU128;
+
+use crate::{
+    iso::IsoDate,
+    options::RoundingMode,
+    rounding::{IncrementRounder, Round},
+    TemporalResult,
+};
+
+/// `IncrementRounder::<i128>::from_signed_num(x, inc)?.round(mode)`
+pub fn round_i128(x: i128, increment: NonZeroU128, mode: RoundingMode) -> TemporalResult<i128> {
+    Ok(IncrementRounder::<i128>::from_signed_num(x, increment)?.round(mode))
+}
+
+/// `IncrementRounder::<f64>::from_signed_num(x, inc)?.round(mode)`
+pub fn round_f64(x: f64, increment: NonZeroU128, mode: RoundingMode) -> TemporalResult<i128> {
+    Ok(IncrementRounder::<f64>::from_signed_num(x, increment)?.round(mode))
+}
+
+/// `utils::epoch_days_from_gregorian_date`
+pub fn epoch_days_from_gregorian_date(year: i32, month: u8, day: u8) -> i32 {
+    crate::utils::epoch_days_from_gregorian_date(year, month, day)
+}
+
+/// `utils::ymd_from_epoch_milliseconds`
+pub fn ymd_from_epoch_milliseconds(ms: i64) -> (i32, u8, u8) {
+    crate::utils::ymd_from_epoch_milliseconds(ms)
+}
+
+/// `IsoDate::balance`
+pub fn iso_date_balance(year: i32, month: i32, day: i32) -> IsoDate {
+    IsoDate::balance(year, month, day)
+}
+
+/// `utils::iso_days_in_month`
+pub fn iso_days_in_month(year: i32, month: u8) -> u8 {
+    crate::utils::iso_days_in_month(year, month)
+}
+
+/// Fault injection: panics while holding the process-wide provider lock.
+#[cfg(feature = "compiled_data")]
+pub fn panic_holding_tz_provider() {
+    let _guard = crate::builtins::TZ_PROVIDER.lock();
+    panic!("verif_hooks: injected panic while holding TZ_PROVIDER");
+}
